@@ -115,7 +115,7 @@ def run(check):
     with harness.Runner() as rn:
         if not rn.hang_oracle_works():
             check.fail_broken("the hang oracle (Go runtime deadlock report) does not fire in this build")
-        items = cancelfam.cancel_cases(check, rn, "c06", check.pick(8, 40), check.pick(21, 63), sched_points=check.pick(3, 25))
+        items = cancelfam.cancel_cases(check, rn, "c06", check.pick(8, 40), check.pick(3 * len(cancelfam.NEVER_ENDING), 6 * len(cancelfam.NEVER_ENDING)), sched_points=check.pick(3, 25))
         by_id = {c["id"]: (c, s, g) for c, s, g in items}
         out = rn.run_cases([c for c, _s, _g in items], per_case_timeout=120)
         slow_cases = []
